@@ -191,6 +191,10 @@ class ScriptedMixin:
         self.program = settings.get("program", [0])
         self.mine = []
         self.n_consult = 0
+        if settings.get("rebind_holdings"):
+            # what a user class does when it sets its own per-market endowments in setup: new containers, same content
+            self.asset_volumes = dict(self.asset_volumes)
+            self.cash_amount = float(self.cash_amount)
 
     def _live(self, o, t):
         return (o.placed_at is not None and not o.is_canceled and o.volume > 0
@@ -528,6 +532,8 @@ def mkcfg(sessions, markets=None, agents=None, events=None, extra=None):
              "program": a.get("program", [0])}
         if a.get("n", 1) == 1:
             del d["numAgents"]
+        if a.get("rebind_holdings"):
+            d["rebind_holdings"] = True
         cfg[a["name"]] = d
     cfg.update(events or {})
     cfg.update(extra or {})
